@@ -61,7 +61,11 @@ DOCS = {
 # a six-level document with five-item lists, for paths of 4-7 parts (the "deep" family; not combined with every shape)
 DEEP_DOC = ("{'a': {'b': {'c': [u1, {'d': [u2, u3, 7, u1, {'e': u2, 'b': [u3]}]}, 3, [u3], u2]}, 'x': [[[[u1, u2], []], {}]]}, "
             "'l': [0, u2, 2, [], [u1, [u2, [u3, {'b': u1, 'd': [u2]}], 9], {'b': {'b': u3}}]]}")
-DOCS_ALL = dict(DOCS, d6=DEEP_DOC)
+# aliasing inside the document (what a YAML anchor / alias pair loads to): the same mapping and the same list object are reached
+# through several branches; every branch is a node of its own (own concrete path), values are the shared objects
+ALIAS_DOC = "{'a': (sh := {'b': u1, 'c': [u2, u3]}), 'l': [sh, [u3], sh['c'], sh], 1: sh['c'], 'b': sh, 'c': [sh['c'], sh['c']]}"
+ALIAS_SHAPES = [("M", "b"), ("X", "X"), ("l", "L", "b"), ("M", "c", "i"), ("X", "X", "X"), ("l", "Lie", "c"), ("M", "Mk"), ("c", "L", "Lv")]
+DOCS_ALL = dict(DOCS, d6=DEEP_DOC, da=ALIAS_DOC)
 DEEP_QUICK = [
     ("a", "b", "c", "i"), ("a", "b", "c", "1", "d", "j"), ("a", "b", "c", "1", "d", "Li"), ("X", "X", "X", "X", "X"),
     ("l", "4", "j", "1", "1", "s"), ("a", "x", "L", "L", "L", "i"),
@@ -202,6 +206,9 @@ def cases(ctx):
     # deep family: 4-7 parts over a six-level document with five-item lists
     for sh in (DEEP_QUICK if ctx.quick else DEEP_QUICK + DEEP_MORE):
         out.append(path_case(sh, "d6", L, tag="deep"))
+    # aliased documents: the same container object under several branches
+    for sh in (ALIAS_SHAPES[:5] if ctx.quick else ALIAS_SHAPES):
+        out.append(path_case(sh, "da", L, tag="alias"))
     # the empty path
     body = """
 doc = [u1, {'a': u2}]
